@@ -15,16 +15,16 @@ Definition assign_end (rank size n maxpos : Z) : Z :=
 
 (* Process._read_data_chunk : has_data, new end cursor, window of the pending list read *)
 Definition chunk_has_data (start rank_end maxpos end0 : Z) : bool :=
-  (if (start <? (Z.min rank_end (start + maxpos))) then true else false).
+  (if (start <? rank_end) then true else false).
 
 Definition chunk_end (start rank_end maxpos end0 : Z) : Z :=
-  (Z.min rank_end (start + maxpos)).
+  (if (start <? rank_end) then (Z.min rank_end (start + maxpos)) else end0).
 
 Definition chunk_lo (start rank_end maxpos end0 : Z) : Z :=
   start.
 
 Definition chunk_hi (start rank_end maxpos end0 : Z) : Z :=
-  (if (start <? (Z.min rank_end (start + maxpos))) then (Z.min rank_end (start + maxpos)) else start).
+  (if (start <? rank_end) then (Z.min rank_end (start + maxpos)) else start).
 
 (* compute(): loop statement order checked: compute, write, cursor := end, flush, mark, read next *)
 Definition loop_order_checked : bool := true.
